@@ -218,7 +218,8 @@ pub fn run(line: &str) -> Obs {
             let a = g.arr(0.0f64, |x| x);
             let is_back = cmd == "back";
             let r = catch(move || {
-                let mut sol = vec![0.0f64; ns];
+                // pre-filled with NaN: the routines must write every entry they are responsible for
+                let mut sol = vec![f64::NAN; ns];
                 if is_back {
                     back_substitution(&a, size, &b, &mut sol);
                 } else {
